@@ -79,6 +79,8 @@ func runC08(r *Report) {
 	r.Fn(ch)
 	r.Fn(sh)
 	c08R1(r, sh)
+	c08Sticky(r)
+	c08FlagsAtInit(r, "R7")
 	c08R2(r, ch)
 	c08R3(r, ch, sh)
 	c08R4(r, ch, sh)
@@ -824,6 +826,124 @@ func c08R5(r *Report) {
 }
 
 // ---------- R6 ----------
+
+// c08Sticky: the latched write error is final. Conn.err is stored only by Conn.Write (and the helpers factored out of
+// it) and never with nil: forgetting it — after a timeout, say — lets a later Write succeed although a chunk that was
+// encrypted never reached the wire, so the keystream is ahead of the receiver for good.
+func c08Sticky(r *Report) {
+	p := r.P
+	w := p.Func("crypto", "Conn.Write")
+	errF := p.Field("crypto", "Conn", "err")
+	if w == nil || errF == nil {
+		return
+	}
+	n := 0
+	for _, acc := range p.fieldAccesses(errF) {
+		if !acc.Write {
+			continue
+		}
+		fa, ok := acc.Instr.(*ssa.FieldAddr)
+		if !ok {
+			continue
+		}
+		for _, ref := range *fa.Referrers() {
+			st, isSt := ref.(*ssa.Store)
+			if !isSt || st.Addr != ssa.Value(fa) {
+				continue
+			}
+			if al, isAl := fa.X.(*ssa.Alloc); isAl && al.Comment == "complit" {
+				continue
+			}
+			n++
+			f := enclosingNamed(acc.Fn)
+			r.Fn(f)
+			key := fmt.Sprintf("%s/Conn.err-store", fname(f))
+			switch {
+			case !(f == w || p.inUnitOf(f, w)):
+				r.Fail("R6", key, st.Pos(), "Conn.err is written in %s, outside Conn.Write: the latch that keeps the keystream from running ahead of the wire can be changed behind Write's back", fname(f))
+			case isNilConst(st.Val):
+				r.Fail("R6", key, st.Pos(), "Conn.err is reset to nil: after a failed or partial write the keystream is ahead of what the receiver got, and every later write would be decrypted to garbage")
+			default:
+				r.Ok("R6", key, st.Pos(), "the error is latched by Write and never cleared")
+			}
+		}
+	}
+	r.Sentinel("R6.sticky", n, 1)
+}
+
+// c08FlagsAtInit: the encryption (and privacy) policy lives in package config's variables, which main sets from the
+// command line. No package-level initialiser or init function of the module may read such a variable: it runs before
+// flag.Parse and freezes the zero default (var dialOptions = crypto.DefaultOptions(config.PreferEncryption, …)).
+func c08FlagsAtInit(r *Report, rule string) {
+	p := r.P
+	// flag targets: &config.X handed to the flag package, and config variables assigned in package main
+	targets := map[*ssa.Global]bool{}
+	for _, f := range p.SrcFuncs() {
+		if funcPkgPath(f) != modPath {
+			continue
+		}
+		allInstrs(f, func(in ssa.Instruction) {
+			switch x := in.(type) {
+			case *ssa.Call:
+				if o := calleeObj(x); o != nil && o.Pkg() != nil && o.Pkg().Path() == "flag" {
+					for _, a := range x.Call.Args {
+						if g, ok := a.(*ssa.Global); ok && g.Pkg != nil && strings.HasPrefix(g.Pkg.Pkg.Path(), modPath+"/config") {
+							targets[g] = true
+						}
+					}
+				}
+			case *ssa.Store:
+				if g, ok := x.Addr.(*ssa.Global); ok && g.Pkg != nil && strings.HasPrefix(g.Pkg.Pkg.Path(), modPath+"/config") {
+					targets[g] = true
+				}
+			}
+		})
+	}
+	if len(targets) == 0 {
+		r.Undecided(rule, "flags-at-init/targets", token.NoPos, "no configuration variable set from the command line was found in package main")
+		return
+	}
+	n := 0
+	seen := map[*ssa.Function]bool{}
+	var scan func(f *ssa.Function, root *ssa.Function, d int)
+	scan = func(f *ssa.Function, root *ssa.Function, d int) {
+		if f == nil || f.Blocks == nil || seen[f] || d > 3 {
+			return
+		}
+		seen[f] = true
+		allInstrs(f, func(in ssa.Instruction) {
+			if ld, ok := in.(*ssa.UnOp); ok && ld.Op == token.MUL {
+				if g, okg := ld.X.(*ssa.Global); okg && targets[g] {
+					n++
+					r.Fail(rule, fmt.Sprintf("flags-at-init/%s/config.%s", funcPkgPath(root), g.Name()), ld.Pos(), "config.%s, which main sets from the command line, is read during the initialisation of package %s (%s): it is read before flag.Parse, so the value frozen there is the zero default whatever the user asked for — a forced encryption policy is silently not applied to what was built from it", g.Name(), funcPkgPath(root), fname(f))
+				}
+			}
+			if ci, ok := in.(ssa.CallInstruction); ok {
+				if cal := ci.Common().StaticCallee(); cal != nil && strings.HasPrefix(funcPkgPath(cal), modPath) && cal.Name() != "init" {
+					scan(cal, root, d+1)
+				}
+			}
+		})
+	}
+	nInit := 0
+	for _, pk := range p.SSA.AllPackages() {
+		if pk.Pkg == nil || !(pk.Pkg.Path() == modPath || strings.HasPrefix(pk.Pkg.Path(), modPath+"/")) {
+			continue
+		}
+		for name, m := range pk.Members {
+			fn, ok := m.(*ssa.Function)
+			if !ok || !(name == "init" || strings.HasPrefix(name, "init#")) {
+				continue
+			}
+			nInit++
+			seen = map[*ssa.Function]bool{}
+			scan(fn, fn, 0)
+		}
+	}
+	if n == 0 {
+		r.Ok(rule, "flags-at-init", token.NoPos, "%d configuration variables set from the command line; none is read by the %d package initialisers of the module", len(targets), nInit)
+	}
+}
 
 func c08R6(r *Report) {
 	p := r.P
